@@ -160,7 +160,11 @@ class RefDelayQueue:
         else:
             i = int(x)
         self.pending[i][j] += 1
-        self.entries.append((fire_time, j, t_req, self.nqt + i * self.dt))
+        slot_time = self.nqt + i * self.dt
+        # self-check of the reference against the statement: nearest grid time unless clamped to the first / last slot
+        if 0 < i < self.n - 1 and abs(slot_time - t_req) > 0.5 * self.dt * (1 + 1e-9):
+            raise AssertionError("reference queue: slot is not the nearest grid time")
+        self.entries.append((fire_time, j, t_req, slot_time))
         return i
 
     def pop(self):
